@@ -85,7 +85,7 @@ func classify(stderr string) string {
 	switch {
 	case strings.Contains(stderr, "DATA RACE"):
 		return "race"
-	case strings.Contains(stderr, "concurrent map"):
+	case strings.Contains(stderr, "concurrent map"), strings.Contains(stderr, "fatal error: sync:"):
 		return "fatal"
 	case strings.Contains(stderr, "all goroutines are asleep"):
 		return "hang"
